@@ -149,10 +149,19 @@ Proof.
   induction evs as [|ev evs IH]; intros st x H; auto. rewrite run_cons. apply IH. apply commits_step_incl. assumption.
 Qed.
 
+Definition cancels (x : N) (ev : event) : bool :=
+  match ev with BrokerCancel ids => mem x ids | _ => false end.
+
+Definition no_cancel_of (x : N) (evs : list event) : bool := forallb (fun ev => negb (cancels x ev)) evs.
+
+Lemma no_cancel_of_app : forall x e1 e2, no_cancel_of x (e1 ++ e2) = no_cancel_of x e1 && no_cancel_of x e2.
+Proof. intros. unfold no_cancel_of. apply forallb_app. Qed.
+
 Lemma pend_or_commit_step : forall st ev x,
+  cancels x ev = false ->
   In x (pending st) \/ In x (commits st) -> In x (pending (step st ev)) \/ In x (commits (step st ev)).
 Proof.
-  intros st ev x H. destruct ev; cbn [Ctrl.step]; auto.
+  intros st ev x Hc H. destruct ev; cbn [Ctrl.step]; auto.
   - destruct (served (now st) a) as [[e c]|]; auto.
   - destruct (take_first k (queue st)) as [[c q]|]; auto.
   - destruct (nth_error (net st) i); [rewrite deliver_to_split|]; auto.
@@ -162,12 +171,18 @@ Proof.
     destruct H as [H | H]; [|right; right; assumption].
     destruct (N.eq_dec x id) as [-> | Hne]; [right; left; reflexivity|].
     left. apply remove_key_In. split; auto.
+  - cbn [pending commits]. cbn [cancels] in Hc. destruct H as [H | H]; [|right; exact H].
+    left. apply filter_In. split; [exact H|]. rewrite Hc. reflexivity.
 Qed.
 
 Lemma pend_or_commit_run : forall evs st x,
+  no_cancel_of x evs = true ->
   In x (pending st) \/ In x (commits st) -> In x (pending (run evs st)) \/ In x (commits (run evs st)).
 Proof.
-  induction evs as [|ev evs IH]; intros st x H; auto. rewrite run_cons. apply IH. apply pend_or_commit_step. assumption.
+  induction evs as [|ev evs IH]; intros st x Hn H; auto.
+  cbn [no_cancel_of forallb] in Hn. apply andb_true_iff in Hn. destruct Hn as [H1 H2].
+  rewrite run_cons. apply IH; [exact H2|]. apply pend_or_commit_step; [|assumption].
+  destruct (cancels x ev); [discriminate | reflexivity].
 Qed.
 
 Lemma commit_step_done : forall st x,
@@ -179,15 +194,16 @@ Proof.
 Qed.
 
 Lemma commit_exactly_once_inv : forall tail st id,
-  Inv st -> In id (pending st) -> In (Commit id) tail ->
+  Inv st -> In id (pending st) -> In (Commit id) tail -> no_cancel_of id tail = true ->
   count_occ N.eq_dec (commits (run tail st)) id = 1%nat /\ ~ In id (pending (run tail st)).
 Proof.
-  intros tail st id I Hp Hc.
+  intros tail st id I Hp Hc Hnc.
   apply in_split in Hc. destruct Hc as [e1 [e2 ->]].
+  rewrite no_cancel_of_app in Hnc. apply andb_true_iff in Hnc. destruct Hnc as [Hnc1 _].
   rewrite run_app, run_cons.
   assert (I1 : Inv (run e1 st)) by (apply Inv_run; assumption).
   assert (H1 : In id (commits (step (run e1 st) (Commit id)))).
-  { apply commit_step_done; auto. apply pend_or_commit_run. left; assumption. }
+  { apply commit_step_done; auto. apply pend_or_commit_run; [exact Hnc1|]. left; assumption. }
   assert (H2 : In id (commits (run e2 (step (run e1 st) (Commit id))))) by (apply commits_run_incl; assumption).
   assert (If : Inv (run e2 (step (run e1 st) (Commit id)))) by (apply Inv_run; apply Inv_step; assumption).
   split.
@@ -197,7 +213,7 @@ Qed.
 
 Theorem commit_exactly_once : forall pre tail id,
   let st := run pre init in
-  In id (pending st) -> In (Commit id) tail ->
+  In id (pending st) -> In (Commit id) tail -> no_cancel_of id tail = true ->
   count_occ N.eq_dec (commits (run tail st)) id = 1%nat /\ ~ In id (pending (run tail st)).
 Proof. intros. apply commit_exactly_once_inv; auto. apply Inv_run. apply Inv_init. Qed.
 
